@@ -135,6 +135,9 @@ fn recompute_protected(w: &mut World, m: &MDoc) {
 }
 
 pub fn c11_program(ctx: &Ctx, out: &mut RunOut) -> Result<(), Violation> {
+    for k in ["save-with-hard-fault", "save-accepted", "crash-reload", "start-from-loaded-file"] {
+        ctx.count_n(k, 0); // registered so that a probe that never fires shows up as zero in the evidence
+    }
     let pd = pagegen::gen_page_doc(ctx);
     let from_file = ctx.chance(W, 1, 3, "start-from-file");
     let mut w = World { d: sim::to_doc(&pd.doc), exp_ops: pd.expected_ops.clone(), allocated: vec![], pages: pd.pages.clone(), annotations: pd.annotations.clone(), protected: BTreeSet::new(), resource_objs: BTreeSet::new() };
